@@ -1,5 +1,8 @@
 import EpdVerif.Props.C02Partial
 import EpdVerif.Props.C01Bytewise
+import EpdVerif.Props.Panels.Epd2in7b
+import EpdVerif.Props.Panels.Epd1in54b
+import EpdVerif.Props.Panels.Epd7in5
 /-!
 # C02 composed for the per-byte re-encoding drivers (session 4)
 
@@ -60,4 +63,37 @@ theorem epd7in5_any_history_then_update (progs : List (List Act)) (u : Uc)
       (u'.run (blocksOf ((Drivers.Epd7in5.prog {} d (.upd b)).getD []))).p1.toList = b.flatMap C01.expand4 := by
   obtain ⟨u', e, a', p', _, s1, _⟩ := uc_any_history (Drivers.Epd7in5.panel {}) _ rfl progs u ha hp (by rw [h14]; rfl) h
   exact ⟨u', e, C01.epd7in5_update_frame_delivers {} d b u' a' p' (by rw [s1]; exact hl)⟩
+/-- **epd2in7b — RECOVERY**: from ANY controller state of its kind `wake_up`, any history, `update_frame` delivers -/
+theorem epd2in7b_wake_from_any_state_then_update (u : Uc) (h14 : u.has14 = true) (d0 : DState) (progs : List (List Act))
+    (h : ∀ a, a ∈ progs → keepsModeP (Drivers.Epd2in7b.panel {}) a = true ∨ establishesModeP (Drivers.Epd2in7b.panel {}) a = true)
+    (d : DState) (b : Bytes) (hl : b.length = u.p1.size) (h2 : u.p2.size = Gen.Epd2in7b.WIDTH / 8 * Gen.Epd2in7b.HEIGHT) :
+    ∃ u1 u' : Uc, (Ctrl.uc u).run (blocksOf ((Drivers.Epd2in7b.prog {} d0 .wake).getD [])) = .uc u1 ∧
+      progs.foldl (fun c a => c.run (blocksOf a)) (Ctrl.uc u1) = .uc u' ∧
+      (u'.run (blocksOf ((Drivers.Epd2in7b.prog {} d (.upd b)).getD []))).p1.toList = b.map (fun x => ~~~x) := by
+  obtain ⟨u1, e1, a1, p1, f1, z1, z2⟩ := uc_recover (Drivers.Epd2in7b.panel {}) _ rfl _ (epd2in7b_wake_establishes_mode {} d0) u (by rw [h14]; rfl)
+  obtain ⟨u', e2, r⟩ := epd2in7b_any_history_then_update progs u1 a1 p1 (by rw [f1]; rfl) h d b (by rw [z1]; exact hl) (by rw [z2]; exact h2)
+  exact ⟨u1, u', e1, e2, r⟩
+
+/-- **epd1in54b — RECOVERY** -/
+theorem epd1in54b_wake_from_any_state_then_update (u : Uc) (h14 : u.has14 = false) (d0 : DState) (progs : List (List Act))
+    (h : ∀ a, a ∈ progs → keepsModeP (Drivers.Epd1in54b.panel {}) a = true ∨ establishesModeP (Drivers.Epd1in54b.panel {}) a = true)
+    (d : DState) (b : Bytes) (hl : 2 * b.length = u.p1.size) (h2 : u.p2.size = Gen.Epd1in54b.WIDTH * (Gen.Epd1in54b.HEIGHT / 8)) :
+    ∃ u1 u' : Uc, (Ctrl.uc u).run (blocksOf ((Drivers.Epd1in54b.prog {} d0 .wake).getD [])) = .uc u1 ∧
+      progs.foldl (fun c a => c.run (blocksOf a)) (Ctrl.uc u1) = .uc u' ∧
+      (u'.run (blocksOf ((Drivers.Epd1in54b.prog {} d (.upd b)).getD []))).p1.toList = (b.map Drivers.Epd1in54b.expandBits).flatten := by
+  obtain ⟨u1, e1, a1, p1, f1, z1, z2⟩ := uc_recover (Drivers.Epd1in54b.panel {}) _ rfl _ (epd1in54b_wake_establishes_mode {} d0) u (by rw [h14]; rfl)
+  obtain ⟨u', e2, r⟩ := epd1in54b_any_history_then_update progs u1 a1 p1 (by rw [f1]; rfl) h d b (by rw [z1]; exact hl) (by rw [z2]; exact h2)
+  exact ⟨u1, u', e1, e2, r⟩
+
+/-- **epd7in5 — RECOVERY** -/
+theorem epd7in5_wake_from_any_state_then_update (u : Uc) (h14 : u.has14 = false) (d0 : DState) (progs : List (List Act))
+    (h : ∀ a, a ∈ progs → keepsModeP (Drivers.Epd7in5.panel {}) a = true ∨ establishesModeP (Drivers.Epd7in5.panel {}) a = true)
+    (d : DState) (b : Bytes) (hl : 4 * b.length = u.p1.size) :
+    ∃ u1 u' : Uc, (Ctrl.uc u).run (blocksOf ((Drivers.Epd7in5.prog {} d0 .wake).getD [])) = .uc u1 ∧
+      progs.foldl (fun c a => c.run (blocksOf a)) (Ctrl.uc u1) = .uc u' ∧
+      (u'.run (blocksOf ((Drivers.Epd7in5.prog {} d (.upd b)).getD []))).p1.toList = b.flatMap C01.expand4 := by
+  obtain ⟨u1, e1, a1, p1, f1, z1, _⟩ := uc_recover (Drivers.Epd7in5.panel {}) _ rfl _ (epd7in5_wake_establishes_mode {} d0) u (by rw [h14]; rfl)
+  obtain ⟨u', e2, r⟩ := epd7in5_any_history_then_update progs u1 a1 p1 (by rw [f1]; rfl) h d b (by rw [z1]; exact hl)
+  exact ⟨u1, u', e1, e2, r⟩
+
 end EpdVerif.Props.C02
